@@ -533,4 +533,4 @@ def make_spec(key):
 def run(ctx):
     for role in ("server", "client"):
         for side in ("local", "localrep", "remote"):
-            ctx.explore(("c11", role, side, ctx.tier), time_budget=None if ctx.tier == "quick" else 400)
+            ctx.explore(("c11", role, side, ctx.tier), time_budget=None if ctx.tier == "quick" else 240)
